@@ -29,7 +29,7 @@ FMOD = "irispie.fords.simulators"
 
 def rule_r1(chk, thorough=False):
     chk.rule("C18-R1", "definite None dereference: along some path a local is assigned None and then dereferenced "
-             "(attribute, call, subscript, arithmetic) without an intervening test", floor=2)
+             "(attribute, call, subscript, arithmetic) without an intervening test", floor=2, shape_independent=True)
     m = chk.repo.mod(EMOD)
     targets = [("_estimate_variant", m), ("_get_estimation_data", m)]
     if thorough:
@@ -341,13 +341,13 @@ def rule_r5(chk):
 
 
 def run(chk):
-    rule_r1(chk, thorough=(chk.tier == "thorough"))
-    rule_r2(chk)
-    rule_r3(chk)
-    rule_r4(chk)
-    rule_r5(chk)
+    chk.guard(rule_r1, chk, thorough=(chk.tier == "thorough"))
+    chk.guard(rule_r2, chk)
+    chk.guard(rule_r3, chk)
+    chk.guard(rule_r4, chk)
+    chk.guard(rule_r5, chk)
     from .. import variants
-    variants.apply(chk, "C18-R6", [("irispie.red_vars._simulators", "_simulate"), ("irispie.red_vars._estimators", "Inlay.estimate")])
+    chk.guard(variants.apply, chk, "C18-R6", [("irispie.red_vars._simulators", "_simulate"), ("irispie.red_vars._estimators", "Inlay.estimate")])
     chk.assumptions = [
         "numerical least squares (conditioning, solve) and companion-form moments (mean, eigenvalues, Lyapunov) are not decided",
         "parameters defaulting to None are not assumed None; only locals assigned None on a path",
